@@ -53,7 +53,7 @@ fn base() -> usize {
 
 unsafe impl GlobalAlloc for TrackAlloc {
     unsafe fn alloc(&self, layout: Layout) -> *mut u8 {
-        #[cfg(not(miri))]
+        #[cfg(not(any(miri, fuzzing)))]
         {
             let t = IN_TRACKED.try_with(|c| c.get()).unwrap_or(0);
             if t != 0 && layout.size() <= BLOCK && layout.align() <= 64 && layout.size() > 0 {
@@ -72,7 +72,7 @@ unsafe impl GlobalAlloc for TrackAlloc {
         System.alloc(layout)
     }
     unsafe fn dealloc(&self, ptr: *mut u8, layout: Layout) {
-        #[cfg(not(miri))]
+        #[cfg(not(any(miri, fuzzing)))]
         {
             let a = ptr as usize;
             let b = base();
@@ -174,5 +174,5 @@ pub(crate) fn stats(slot: usize) -> Stats {
 }
 
 pub(crate) fn enabled() -> bool {
-    !cfg!(miri)
+    !cfg!(any(miri, fuzzing))
 }
